@@ -152,7 +152,7 @@ def _build_harness(name, srcs, variant, sync, alloc, libs, extra, cxx):
     if alloc:
         srcs.append(os.path.join(HARNESS, "verif_wrap_alloc.c"))
         wraps += WRAP_ALLOC
-    cmd = ["g++" if cxx else "gcc", "-O1", "-g", "-w"] + cflags.split() + inc + srcs + ["-o", exe + ".tmp"]
+    cmd = ["g++" if cxx else "gcc", "-O1", "-g", "-w", "-no-pie"] + cflags.split() + inc + srcs + ["-o", exe + ".tmp"]
     if wraps:
         cmd.append("-Wl," + ",".join("--wrap=" + w for w in wraps))
     for l in libs:
@@ -244,6 +244,16 @@ def tlc_trace(module, cfg, ndjson, timeout=1800, heap="8g", deque=False, env=Non
 
 # --------------------------------------------------------------------------------------------
 # traces
+
+def symbolize(exe, addrs):
+    """addr2line -f for a list of hex addresses; returns {addr: function name}."""
+    addrs = sorted({a for a in addrs if a and a not in ("(nil)", "0x0")})
+    if not addrs:
+        return {}
+    rc, out = sh(["addr2line", "-f", "-e", exe] + addrs, timeout=120)
+    lines = out.splitlines()
+    return {a: (lines[2 * i] if 2 * i < len(lines) else "?") for i, a in enumerate(addrs)}
+
 
 def read_trace(path, stream=None):
     """Parse a raw trace file written by verif_rt.c. Yields (seq, tid, stream, inst, ev, [args])."""
